@@ -157,6 +157,8 @@ def _emit_dataset(ds, out):
         out.extend(_body(fname, ds))
         call = base + ("(" + ", ".join(kw) + ")" if kw else "")
         out.append(f"{ds['name']} = {call}({fname})")
+    if ds.get("effects_disabled"):
+        out.append(f"{ds['name']}.disable_effects()")      # the per-dataset toggle is part of the pickled state
     out.append("")
     for ov in ds.get("overloads", []):
         _emit_overload(ds["name"], ov, out)
@@ -293,6 +295,8 @@ def gen_world(rng, modname, mixed, max_ds=6):
             ds["callback"] = rng.choices([[], ["cb1"], ["cb1", "cb2"]], [0.6, 0.25, 0.15])[0]
             ds["effects"] = rng.choices([[], ["eff1"], ["eff1", "eff2"], ["eff_raise"], ["eff2", "eff_raise"]],
                                         [0.55, 0.22, 0.13, 0.05, 0.05])[0]
+        if ds.get("effects") and rng.random() < 0.3:
+            ds["effects_disabled"] = True
         if rng.random() < 0.15:
             ds["nocache"] = True
         ovs = []
